@@ -54,7 +54,7 @@ def run(F, S, R, tier):
         se = F.need(PM + "set_entry")
         K.mustcall(R, "paired/set", se, [PM + "track_entry_statics$"], S, allow_err_exits=False, what="a status change moves the entry between counters")
         for c in se.calls_to(PM + "track_entry_statics$"):
-            if K.src_match(se.operand_sources(c.args[1]), [r"var:old_status"]) and K.src_match(se.operand_sources(c.args[2]), [r"param:status"]):
+            if K.src_match(se.operand_sources(c.args[1]), [r"vty:core::option::Option<component::pool_map::Status>$"]) and K.src_match(se.operand_sources(c.args[2]), [r"param:status"]):
                 R.ok("prov/set/status", "set_entry moves the counter from the old status to the new one", [c.where()])
             else:
                 R.bad("prov/set/status", "set_entry does not call track_entry_statics(old_status, Some(status))", [c.where()])
@@ -296,7 +296,7 @@ def run(F, S, R, tier):
     def limits():
         ca = F.need(PM + "check_and_record_ancestors")
         K.reqerr(R, "reqerr/ancestors", [ca], {(RJ, "ExceededMaximumAncestorsCount"): 1}, what="ancestor limit")
-        sites = K.find_cmp(ca, [r"var:ancestors_count"], [r"field:.*PoolMap\.max_ancestors_count"])
+        sites = K.find_cmp(ca, [r"call:.*HashSet::<.*>::len$"], [r"field:.*PoolMap\.max_ancestors_count"])
         les = [s for s, sw in sites if (K.SWAP[s.op] if sw else s.op) == "le"]
         gts = [s for s, sw in sites if (K.SWAP[s.op] if sw else s.op) == "gt"]
         if len(les) >= 2 and gts:
